@@ -58,6 +58,10 @@ CHECKS = {
    tech='differential symbolic execution at JSON-tree level against a reference Hayson tree builder written from the specification (/verif/spec/hayson.py): writer trees compared as formulas, reader fed the reference tree in every member order and number spelling (forks)',
    text='Writer: for every catalogue value the tree produced by the real Serialize impls must equal the reference tree (object members as sets, numbers as reals). Reader: the reference tree is spelled with every permutation of the members of each object (<= 4 members), integral numbers as integer or float (incl. integers up to 2^64), and must decode to the value. Witnesses are replayed natively (serde_json::to_value / from_str of the rendered tree).',
    note='Symbolic integral numbers are excluded from the writer comparison (int<->float cast reasoning does not finish in z3; covered by C02). JSON text level trusted. The reference trees are part of the trusted base.'),
+ 'C06': dict(engine=M, cat='model_checking', design='7 (C06), 4.3 (chrono model)',
+   tech='symbolic execution of the crate MIR (RFC 3339 constructors, zone mapping, Zinc explicit-offset arithmetic, short names) over symbolic offset and fraction digits with a chrono model (civil calendar arithmetic, RFC 3339 grammar, fixed offsets); the resulting instant is an integer term compared by z3 with the instant the text denotes; witnesses replayed natively',
+   text='PARTIAL. For every offset text +-hh:mm (4 symbolic digits) DateTime::parse_from_rfc3339 and parse_from_rfc3339_with_timezone (several zones) must either reject the string or return exactly the instant it denotes and the requested zone; the Zinc reader must do the same for every valid explicit offset followed by a zone name; 1-9 symbolic fraction digits must survive decoding; timezone_short_name must be the part after the first / for 1-, 2- and 3-segment zone ids. Instants are checked natively on each witness.',
+   note='NOT decided: "both sides of every daylight-saving transition" and the exhaustive IANA zone list - chrono-tz rule tables are outside the MIR dump and not encoded; named zones are treated as an opaque offset with the instant carried explicitly. Round trips of timestamps through the codecs are in C01/C02/C04.'),
 }
 NA = {
  'C14': 'quantifies over thread interleavings on dashmap\'s sharded locks: Kani has no thread model, mirsym is sequential and dashmap is outside the MIR dump; no solver-based engine on this image reaches it (DESIGN.md section 8)',
